@@ -22,14 +22,14 @@ STD = ["From Coq Require Import Ascii String.", "From Coq Require Import List NA
 
 TABLE = {
  "C01": dict(
-   intro="C01 -- parsing is total.\n   Termination: the model's OutOfFuel value (a loop of the Rust source that does not finish, or entity\n   recursion deeper than the level fuel) is unreachable on valid UTF-8 input: every loop iteration consumes\n   input and the loop detector bounds the entity nesting.  (On byte strings that are not valid UTF-8 the\n   model can loop: termination_needs_valid_utf8; a Rust &str is always valid UTF-8.)\n   No panic: the tokenizer reaches none of its panic sites (slicing, indexing, advance, unwrap) on valid\n   UTF-8, with any callback that does not panic itself; the real callback preserves the builder invariant\n   Core and can only reach the debug_assert of ShortRange::from in resolve_namespaces (tree_order longer\n   than u32::MAX), see DESIGN.md D17.",
-   imports=["From RX.Proofs Require Import TermStream TermUtf8 TermParse NoPanicUtf8 NoPanicStream NoPanicTokenizer NoPanicBuilder NoPanicBuilderCtx NoPanicText NoPanicParse."],
-   groups=[("TermParse.v", ["tokenizer_terminates", "token_terminates", "token_preserves_depth0", "parse_document_terminates"]),
+   intro="C01 -- parsing is total.\n   Termination: the model's OutOfFuel value (a loop of the Rust source that does not finish, or entity\n   recursion deeper than the level fuel) is unreachable on valid UTF-8 input: every loop iteration consumes\n   input and the loop detector bounds the entity nesting.  (On byte strings that are not valid UTF-8 the\n   model can loop: termination_needs_valid_utf8; a Rust &str is always valid UTF-8.)\n   No panic: the tokenizer reaches none of its panic sites (slicing, indexing, advance, unwrap) on valid\n   UTF-8, with any callback that does not panic itself; the real callback preserves the builder invariant\n   Core and reaches no panic site either; the final root-children check is covered through the arena\n   invariant of C02.  Together: parse_no_panic and parse_terminates, i.e. parse returns Ok or Err for every\n   valid UTF-8 input and every limit that fits the u32 field.  (The one site that could not be excluded,\n   ShortRange::from in resolve_namespaces, was a genuine defect: D17, repaired.)",
+   imports=["From RX.Proofs Require Import TermStream TermUtf8 TermParse TermFinal NoPanicUtf8 NoPanicStream NoPanicTokenizer NoPanicBuilder NoPanicBuilderCtx NoPanicText NoPanicParse NoPanicFinal."],
+   groups=[("NoPanicFinal.v", ["parse_no_panic"]), ("TermFinal.v", ["parse_terminates"]),
+           ("TermParse.v", ["tokenizer_terminates", "token_terminates", "token_preserves_depth0", "parse_document_terminates"]),
            ("TermUtf8.v", ["termination_needs_valid_utf8"], "Local Notation safe := TermStream.safe."),
            ("NoPanicTokenizer.v", ["tokenizer_no_panic"], "Local Notation token := Tokenizer.token."),
-           ("NoPanicParse.v", ["token_panic_only_debug_assert", "token_preserves_core", "parse_document_token_panic_only_debug_assert"],
-            "Local Notation TokOk := NoPanicTokenizer.TokOk."),
-           ("NoPanicParse.v", ["token_no_panic_partial", "token_preserves_CtxInv"])]),
+           ("NoPanicParse.v", ["token_no_panic", "token_preserves_core", "parse_document_token_no_panic"],
+            "Local Notation TokOk := NoPanicTokenizer.TokOk.")]),
  "C02": dict(
    intro="C02 -- a parsed document is a well-formed ordered tree: the arena of every successfully parsed\n   document is the pre-order encoding (Spec/Tree.v) of a tree whose root is the Root node, with no other\n   Root below, children only under Root / Element nodes, and at least one element child of the root.\n   (encode makes 'ids dense and in pre-order, every node reached once, parent / prev-sibling /\n   last-child / next-subtree links mutually consistent' one equation.)",
    imports=["From RX.Spec Require Import Tree.", "From RX.Proofs Require Import KeystoneEnc KeystoneBuilder KeystoneParse KeystoneProto KeystoneWf KeystoneParseWf."],
@@ -63,8 +63,9 @@ TABLE = {
                                  "resolve_attributes_unique_eqb", "resolve_attributes_namespace"])]),
  "C06": dict(
    intro="C06 -- names and in-scope namespaces: the element's namespace range denotes\n   Spec.scope_of (own declarations, then inherited bindings not re-declared); names resolve to the\n   first binding of their prefix; duplicate declarations are detected; the 2^16 limit.\n   (scopes_refine carries the hypothesis that the parent's scope has unique prefixes, which\n   scope_prefixes_unique re-establishes.)",
-   imports=["From RX.Spec Require Scope.", "From RX.Proofs Require Import ScopeProofs."],
-   groups=[("ScopeProofs.v", ["scopes_refine", "scope_prefixes_unique", "names_resolve", "unknown_prefix_rejected", "unknown_prefix_never_ok",
+   imports=["From RX.Spec Require Scope.", "From RX.Proofs Require Import ScopeProofs ScopeParse."],
+   groups=[("ScopeParse.v", ["parse_scopes_ok", "parse_names_ok"]),
+           ("ScopeProofs.v", ["scopes_refine", "scope_prefixes_unique", "names_resolve", "unknown_prefix_rejected", "unknown_prefix_never_ok",
                               "duplicate_declaration_rejected", "push_ns_appends", "push_ns_limit", "ns_values_limit_is"])]),
  "C11": dict(
    intro="C11 -- navigation and iterators agree with the tree: on every arena that is the pre-order\n   encoding of a tree (Arena d t), each link accessor, axis, element variant, text/tail, root_element\n   and iterator of the model's API is the corresponding function of t, and the double-ended iterators\n   implement the deque specification for every sequence of operations.",
